@@ -15,6 +15,7 @@ import (
 	"time"
 
 	"verif/simfw"
+	_ "verif/sims/conc"
 	_ "verif/sims/loader"
 	_ "verif/sims/mw"
 	_ "verif/sims/stream"
@@ -26,6 +27,7 @@ type violationRec struct {
 	Seed       uint64            `json:"seed"`
 	Spec       json.RawMessage   `json:"spec"`
 	Violations []simfw.Violation `json:"violations"`
+	Respec     json.RawMessage   `json:"respec,omitempty"`
 }
 
 type summaryRec struct {
@@ -155,7 +157,7 @@ func main() {
 				}
 			}
 			if len(mine) > 0 {
-				b, _ := json.Marshal(violationRec{Type: "violation", Index: idx, Seed: rs, Spec: raw, Violations: mine})
+				b, _ := json.Marshal(violationRec{Type: "violation", Index: idx, Seed: rs, Spec: raw, Violations: mine, Respec: res.Respec})
 				w.Write(b)
 				w.WriteByte('\n')
 			}
